@@ -1,4 +1,5 @@
 import MoneroModel.Proofs.ExtraComplete
+import MoneroModel.Proofs.ExtraLen
 open Monero Monero.Extra
 /-! # C16 — transaction extra: well-formed sub-field sequences round-trip; parsing is total
 
@@ -78,6 +79,14 @@ theorem C16_first_keys_roundtrip (vk : Bytes → Bool) (fs : List SubField) (hw 
       txAdditionalPubkeys (tryParse vk raw).fields = txAdditionalPubkeys fs := by
   obtain ⟨raw, h1, _, h3, _⟩ := C16_roundtrip vk fs hw hc
   exact ⟨raw, h1, by rw [h3], by rw [h3]⟩
+
+/-- every sub-field the decoder accepts — on ANY bytes — re-encodes to exactly as many bytes as it consumed (varints are
+minimal, padding counts its zero bytes, the merge-mining size byte is one byte whatever its value), hence the sub-fields
+returned for arbitrary extra bytes never re-serialise to more than the input -/
+theorem C16_decoded_subfield_length (vk : Bytes → Bool) (b : Bytes) (sf : SubField) (r : Bytes)
+    (h : subFieldRd vk b = (some sf, r)) : (encSub sf).length + r.length = b.length := subFieldRd_len vk b sf r h
+theorem C16_parsed_not_longer (vk : Bytes → Bool) (e : Bytes) : (encFields (tryParse vk e).fields).length ≤ e.length :=
+  tryParse_len vk e
 
 /-- **Totality.** Every sub-field read on a non-empty input consumes at least one byte, whether it succeeds or fails
 (so the `while position < len` loop makes progress in every iteration), and therefore the loop run with any fuel
